@@ -67,6 +67,7 @@ func (i *rwInterceptor) WriteHeader(statusCode int) {
 	if it := i.tx.ProcessResponseHeaders(statusCode, i.proto); it != nil {
 		i.cleanHeaders()
 		i.Header().Set("Content-Length", "0")
+		setRedirectLocation(i.Header(), it)
 		i.statusCode = obtainStatusCodeFromInterruptionOrDefault(it, i.statusCode)
 		i.flushWriteHeader()
 		return
@@ -140,6 +141,7 @@ func (i *rwInterceptor) Write(b []byte) (int, error) {
 			// if there is an interruption we must clean the headers and override the status code
 			i.cleanHeaders()
 			i.Header().Set("Content-Length", "0")
+			setRedirectLocation(i.Header(), it)
 			i.overrideWriteHeader(obtainStatusCodeFromInterruptionOrDefault(it, i.statusCode))
 			// We only flush the status code after an interruption.
 			i.flushWriteHeader()
@@ -259,6 +261,7 @@ func wrap(w http.ResponseWriter, r *http.Request, tx types.Transaction) (
 				// if there is an interruption we must clean the headers and override the status code
 				i.cleanHeaders()
 				i.Header().Set("Content-Length", "0")
+				setRedirectLocation(i.Header(), it)
 				i.overrideWriteHeader(obtainStatusCodeFromInterruptionOrDefault(it, i.statusCode))
 				i.flushWriteHeader()
 				return nil
